@@ -166,6 +166,7 @@ def c02multi : Drv where
     let blockers := fun (m : RaaBlock.BlockMap) => " ".intercalate ((RaaBlock.BlockMap.get m 1).map toString)
     match ws with
     | ["minit"] => ({}, "ok")
+    | ["crashed"] => (st, "ok")
     | ["fulfil", b] => ({ m := RaaBlock.stepEv st.m (.fulfil 1 (nat! b)) }, "ok")
     | ["rel", b] => ({ m := RaaBlock.stepEv st.m (.release 1 (nat! b)) }, "ok")
     | ["raa", obs] =>
